@@ -122,7 +122,11 @@ P06(def, obs) ==
   obs.outcome = "Ok" =>
      LET cs == CmdChain(Build(def, NoInherit), obs.chain, 1) IN
      \* globals copied between levels are judged by C09
-     \A i \in 1..Len(cs) : P06Level([cs[i] EXCEPT !.args = SelectSeq(@, LAMBDA a : ~a.global)], obs.chain[i], def.s.ignore_errors)
+     \A i \in 1..Len(cs) :
+        /\ P06Level([cs[i] EXCEPT !.args = SelectSeq(@, LAMBDA a : ~a.global)], obs.chain[i], def.s.ignore_errors)
+        \* only *defaults* are invisible to conflicts / requirements / presence: an environment value is an explicit
+        \* origin, so with one present the level's relations (through its groups too) are enforced as for the command line
+        /\ (~def.s.ignore_errors /\ \E k \in 1..Len(obs.chain[i].args) : obs.chain[i].args[k].src = "env") => P03Level(cs[i], obs.chain[i])
 
 \* ---- C07: occurrences combine by action (a fold over the ledger) ---------------------
 OccOf(st, id) == IF \E i \in 1..Len(st) : st[i].id = id THEN st[CHOOSE i \in 1..Len(st) : st[i].id = id].occ ELSE <<>>
@@ -230,7 +234,11 @@ P05(def, argv, obs, top) ==
            THEN \* a declared delimiter may split tail values; their concatenation is still the tail
                 \E m \in 0..Len(allVals) : Concat(SubSeq(allVals, Len(allVals) - m + 1, Len(allVals)))
                       = Concat([k \in 1..n |-> SelectSeq(tail[k], LAMBDA x : \A q \in 1..Len(poss) : x # poss[q].delim)])
-           ELSE Len(allVals) >= n /\ SubSeq(allVals, Len(allVals) - n + 1, Len(allVals)) = tail
+           ELSE /\ Len(allVals) >= n /\ SubSeq(allVals, Len(allVals) - n + 1, Len(allVals)) = tail
+                \* a `last(true)` positional is the one "only able to be accessed via the `--` syntax": with one
+                \* defined, the tail is exactly what it received (in order; no tail token leaks into an earlier positional)
+                /\ \A k \in 1..Len(poss) : poss[k].last /\ n > 0 =>
+                      EHas(E, poss[k].id) /\ EGet(E, poss[k].id).src = "cli" /\ Concat(EGet(E, poss[k].id).occ) = tail
 
 \* ---- C09: chain and globals --------------------------------------------------------------------
 GlobalsAgree(def, obs) ==
@@ -280,12 +288,58 @@ Justified(def, obs, top) ==
          \/ \E a \in P : GroupsOf(f.c, a) \cap DeclConflicts(f.c, a) # {}      \* an argument declared to conflict with its own group
          \/ ~(NoConflict(f.c, P) /\ ExclusiveAlone(f.c, P) /\ GroupAtMostOne(f.c, P))
     [] OTHER -> TRUE
-P10(def, obs, top, mobs) ==
+\* ---- suggestions only ever name things that exist ----------------------------------------------------
+\* what the "For more information, try 'X'." footer names (error/format.rs get_help_flag), as the code computes it
+DD == <<45, 45>>
+TryTarget(c) ==
+  LET ui == FirstIdx(c.args, LAMBDA a : a.action \in {"Help", "HelpShort", "HelpLong"}) IN
+  IF ~Set(c, "disable_help_flag") THEN DD \o HELP
+  ELSE IF ui # 0 THEN (IF c.args[ui].long # <<>> THEN DD \o c.args[ui].long ELSE <<45>> \o c.args[ui].short)
+  ELSE IF c.subs # <<>> /\ ~Set(c, "disable_help_subcommand") THEN HELP
+  ELSE <<>>
+\* (help output - also the one printed for arg_required_else_help - carries no footer)
+\* the command a failing `help <words>` walk ended in: [auto |-> TRUE] for the generated help subcommand itself
+\* (built with DisableHelpFlag and, at parse time, without subcommands: its errors carry no footer)
+RECURSIVE HelpWalkEnd(_, _, _)
+HelpWalkEnd(c, words, i) ==
+  IF i > Len(words) THEN [auto |-> FALSE, c |-> c]
+  ELSE LET si == FindSubcommand(c, words[i]) IN
+       IF si = 0 THEN [auto |-> FALSE, c |-> c]
+       ELSE IF SubView(c)[si].auto THEN [auto |-> TRUE, c |-> c]
+       ELSE HelpWalkEnd(Build(c.subs[SubView(c)[si].i], c.childInh), words, i + 1)
+RECURSIVE FailCmd(_, _)
+FailCmd(c, lv) ==
+  IF lv.sub.set /\ ~lv.sub.ext /\ lv.sub.lv.err /\ FindSubcommand(c, lv.sub.name) # 0
+  THEN FailCmd(Build(c.subs[SubView(c)[FindSubcommand(c, lv.sub.name)].i], c.childInh), lv.sub.lv)
+  ELSE IF ~lv.sub.set /\ lv.sub.name = HELP THEN HelpWalkEnd(c, lv.sub.lv, 1)
+  ELSE [auto |-> FALSE, c |-> c]
+ExpectedTry(def, top, kind) == IF IsStdoutKind(kind) \/ kind = "DisplayHelpOnMissingArgumentOrSubcommand" THEN <<>>
+                               ELSE LET f == FailCmd(Build(def, NoInherit), top) IN IF f.auto THEN <<>> ELSE TryTarget(f.c)
+\* ... and what it means for a named thing to exist at a level (declaratively: the level answers to it)
+SubNamed(c, x) == \E i \in 1..Len(SubView(c)) : SubView(c)[i].name = x \/ x \in SeqToSet(SubView(c)[i].aliases)
+LongNamed(c, x) == Len(x) > 2 /\ SubSeq(x, 1, 2) = DD /\ KeyLongIdx(c, SubSeq(x, 3, Len(x))) # 0
+ShortNamed(c, x) == Len(x) = 2 /\ x[1] = 45 /\ x[2] # 45 /\ KeyShortIdx(c, <<x[2]>>) # 0
+NoSuggestions == [try |-> <<>>, args |-> <<>>, subs |-> <<>>, vals |-> <<>>, subflag |-> <<>>, ddsub |-> <<>>]
+SuggestionsExist(def, top, sg) ==
+  LET f == FailCmd(Build(def, NoInherit), top) c == f.c IN
+  /\ sg.try = <<>> \/ (~f.auto /\ (LongNamed(c, sg.try) \/ ShortNamed(c, sg.try) \/ SubNamed(c, sg.try)))
+  /\ \A i \in 1..Len(sg.args) : LongNamed(c, sg.args[i])
+  /\ \A i \in 1..Len(sg.subs) : SubNamed(c, sg.subs[i])
+  \* ("subcommand 'x' exists; remove the `--`": x is whatever the level would take as a subcommand - an inferred prefix too)
+  /\ \A i \in 1..Len(sg.ddsub) : SubNamed(c, sg.ddsub[i]) \/ PossibleSubcommand(c, sg.ddsub[i], FALSE).some
+  /\ \A i \in 1..Len(sg.vals) : \E k \in 1..Len(c.args) :
+        \E q \in 1..Len(c.args[k].vp.pvs) : c.args[k].vp.pvs[q] = sg.vals[i] \/ sg.vals[i] \in SeqToSet(c.args[k].vp.pv_aliases[q])
+  /\ \A i \in 1..Len(sg.subflag) :
+        LET si == FindSubcommand(c, sg.subflag[i].sub) IN
+        si # 0 /\ ~SubView(c)[si].auto /\ LongNamed(Build(c.subs[SubView(c)[si].i], c.childInh), sg.subflag[i].flag)
+
+P10(def, obs, top, mobs, sg) ==
   /\ KindContract(obs)
   /\ (obs.outcome = "Err" /\ ~top.panic =>
         /\ mobs.outcome = "Err"                    \* inputs that break no rule are not rejected
         /\ KindAllowed(obs.kind, mobs.kind)
-        /\ Justified(def, obs, top))
+        /\ Justified(def, obs, top)
+        /\ SuggestionsExist(def, top, sg))
 
 \* ---- recorded (known) witness classes, see /verif/known_findings.json ---------------------------
 \* KF-C10-1: an override removed the only present member of a group but the group's own entry
